@@ -165,10 +165,13 @@ class _GroupElem(ABC):
             return self.dim
         # embedding dimension deduced from the coordinates: 3D if any z, else
         # 2D if any y, else 1D (elements lying on the x-axis).
-        _, y, z = np.abs(coord.T)
-        if np.max(z) > 0:
+        x, y, z = np.abs(coord.T)
+        # a coordinate is null up to the round-off left by a rigid motion (e.g. a half turn
+        # about an axis of the plane leaves z = 1e-16 y), relative to the size of the group
+        tol = 1e-12 * max(np.max(x), np.max(y), np.max(z))
+        if np.max(z) > tol:
             return 3
-        elif np.max(y) > 0:
+        elif np.max(y) > tol:
             return 2
         else:
             return 1
